@@ -1,13 +1,41 @@
-(* C10, the structural invariant over the extended operation language of Model/Ops2.v.
+(* C10, the structural invariants over the extended operation language of Model/Ops2.v (instance R).
 
    inv o          shape part (|net| = product of the function counts, every control point has o_ncomp components, no empty
                   direction) and, for EVERY basis (periodic or not): 1 <= order, 2*order <= number of knots, the knot list is
-                  sorted, start < end.
+                  sorted, start < end.   (The 2*tol domain-width clause of wf_obj_R is NOT part of it: reparam and split shrink
+                  domains arbitrarily.)
+   ghost_ok o     in every periodic direction the ghost knots are exact images of the interior knots, one period apart
+                  (kn k (i + nfun) = kn k i + (end - start)).
    weights_pos o  a rational object has positive weights.
 
-   Some operations keep the invariant only in states that satisfy a side condition (e.g. knot insertion: the direction is
-   not periodic); the side conditions are collected in [guard2 tol o a] and the history theorem asks for them along the run
-   ([guarded2]).  Operations for which no side condition was found have guard [False]; they are listed at the end. *)
+   Some operations keep the invariants only in states that satisfy a side condition; the side conditions are collected in
+   [guard2 tol o a] (and [guardw2 o a], extra conditions for the weights) and the history theorems ask for them along the run
+   ([guarded2], [guardedw2]):
+     OpOld (OpInsert d xs)   direction d is not periodic           (weights: the new knots lie strictly below the end)
+     OpOld (other 8 ops)     none
+     OpRaise am              0 <= tol; every raised direction is non-periodic with tol < end - start
+                                                                    (weights: only the trivial raise; interpolation at the
+                                                                     Greville points does not keep weights positive)
+     OpSplitPick d ks idx    the hypotheses split_hyps of Proofs/SplitCompose.v (non-periodic direction, split values
+                             2*tol apart from each other and from the domain ends, tol-separated from other knots)
+     OpSection, OpRotate, OpMirror   none
+     OpMakePeriodic cont d   order + cont <= number of functions in direction d
+     OpAppend o2             inv o2 and the raise condition for the operand of lower order   (weights: equal orders, o2 positive)
+     OpMakeIdentical o2 dir  0 <= tol < 1, inv o2, no periodic direction in o or o2, same parametric dimension
+                                                                    (weights: not carried, the order may be raised)
+     OpLowerOrder, OpLowerPeriodic   NOT covered (guard False): lower_order builds its knot vector from continuity counts, which
+                             gives 2*order <= #knots and start < end only for clamped knot vectors with consistent
+                             multiplicities; lower_periodic inserts knots into a periodic direction.
+   Knot insertion into a periodic direction is guarded out because the clauses of [inv] are not inductive there
+   ([periodic_insert_counterexample]); it needs the exact-image property AND enough functions, and the ghost-knot repair
+   loops were not analysed.
+
+   Main results: step2_preserves_inv, step2_preserves_ghost, step2_preserves_weights, reachable_inv, trace_inv,
+   reachable_inv_ghost, reachable_weights; the purely syntactic corollaries reachable_inv_any (operations whose guard is
+   trivial: everything of Model/Ops.v except insertion, section, rotate, mirror) and reachable_inv_covered (the same plus
+   insertion, for objects without periodic directions); accessor consistency (shape_accessor, cps_accessor, ravel_cons,
+   flat_index_bijection, ravel_rev, c2f_entry); non-vacuity: witness_R, witness_R_periodic (R), ops2_example_Q (Q, ten
+   operations of ten kinds). *)
 From Coq Require Import List Arith Reals Lra Lia Bool ZArith Permutation Sorted.
 From SplipyModel Require Import Spec.BSpline Model.Num Model.BasisDef Model.BasisEval Model.Tensor Model.Obj Model.KnotInsert
   Model.Reparam Model.Affine Model.Tol Model.Solve Model.Interp Model.Order Model.Split Model.Section Model.Periodic Model.Identical
@@ -27,6 +55,15 @@ Definition inv (o : obj R) : Prop := shape_ok o /\ Forall knots_ok (o_bases o).
 
 Definition weights_pos (o : obj R) : Prop :=
   o_rat o = true -> Forall (fun v => 0 < nth (o_dim o) v 0) (o_cps o).
+
+(* periodic directions: the ghost knots are exact images of the interior knots, one period (= end - start) apart *)
+Definition images_ok (b : basis R) : Prop :=
+  b_per1 b <> 0%nat -> forall i, (i + b_nfun b < length (b_knots b))%nat ->
+  kn (b_knots b) (i + b_nfun b) = kn (b_knots b) i + (b_end b - b_start b).
+Definition ghost_ok (o : obj R) : Prop := Forall images_ok (o_bases o).
+
+Lemma images_ok_nonper (b : basis R) : b_per1 b = 0%nat -> images_ok b.
+Proof. intros H N. contradiction. Qed.
 
 (* at least one function in every direction *)
 Lemma inv_nfun_pos (o : obj R) : inv o -> Forall (fun b => (0 < b_nfun b)%nat) (o_bases o).
@@ -149,6 +186,257 @@ Proof.
     + rewrite InsertEndToEnd.upd_nth_same by exact Hd. exact K2.
 Qed.
 
+(* ------------------------------------------------------------------------------------------------ *)
+(* knot insertion into a PERIODIC basis: wrap, insert at the bisect position, ghost-knot repair *)
+(* a loop that copies a block of a list to a disjoint block through a function *)
+Lemma fold_copy (g : R -> R) (l : list R) a b : forall c, (a + c <= length l)%nat -> (b + c <= length l)%nat -> (a + c <= b \/ b + c <= a)%nat ->
+  let res := fold_left (fun kk i => upd kk (a + i) (g (kn kk (b + i)))) (seq 0 c) l in
+  length res = length l /\
+  forall j, (j < length l)%nat -> nth j res 0 = if (a <=? j)%nat && (j <? a + c)%nat then g (nth (b + (j - a)) l 0) else nth j l 0.
+Proof.
+  induction c as [|c IH]; intros Ha Hb Hd; cbv zeta.
+  - cbn [seq fold_left]. split; [reflexivity|]. intros j Hj. destruct (Nat.leb_spec a j); destruct (Nat.ltb_spec j (a + 0)); cbn [andb]; try reflexivity; lia.
+  - rewrite seq_S, fold_left_app. cbn [fold_left Nat.add]. destruct (IH ltac:(lia) ltac:(lia) ltac:(lia)) as [L N]. cbv zeta in L, N.
+    set (res := fold_left (fun kk i => upd kk (a + i) (g (kn kk (b + i)))) (seq 0 c) l) in *.
+    split; [rewrite upd_length; exact L|]. intros j Hj.
+    assert (Er : kn res (b + c) = nth (b + c) l 0).
+    { rewrite (kn_in res (b + c)%nat ltac:(lia) 0). rewrite N by lia.
+      destruct (Nat.leb_spec a (b + c)); destruct (Nat.ltb_spec (b + c) (a + c)); cbn [andb]; try reflexivity; lia. }
+    destruct (Nat.eq_dec j (a + c)) as [->|Ne].
+    + rewrite InsertEndToEnd.upd_nth_same by lia. rewrite Er. destruct (Nat.leb_spec a (a + c)); [|lia]. destruct (Nat.ltb_spec (a + c) (a + S c)); [|lia]. cbn [andb].
+      f_equal. f_equal. lia.
+    + rewrite upd_nth_other by exact Ne. rewrite N by exact Hj.
+      destruct (Nat.leb_spec a j); destruct (Nat.ltb_spec j (a + c)); destruct (Nat.ltb_spec j (a + S c)); cbn [andb]; try reflexivity; lia.
+Qed.
+
+Section PerInsert.
+Variable b : basis R.
+Hypothesis Hb : knots_ok b.
+Hypothesis Him : images_ok b.
+Hypothesis Hper : b_per1 b <> 0%nat.
+Hypothesis Hroom : (b_order b + b_per1 b - 1 <= b_nfun b)%nat.
+Local Notation p := (b_order b).
+Local Notation k := (b_knots b).
+Local Notation r := (b_per1 b - 1)%nat.
+Local Notation nf := (b_nfun b).
+Local Notation s := (b_start b).
+Local Notation e := (b_end b).
+Local Notation T := (b_end b - b_start b).
+Variable x : R.
+Hypothesis Hx : s <= x < e.
+Local Notation mu := (py_bisect_right k x).
+Local Notation k' := (insert_at k mu x).
+Local Notation m := (length k').
+
+Definition per_kfin : list R :=
+  if (mu <=? p + r)%nat then repair_right k' m p r
+  else if (m - p - r - 1 <=? mu)%nat then repair_left k' m p r else k'.
+
+Lemma pi_len : length k = (nf + p + r + 1)%nat.
+Proof. destruct Hb as (Hp & _). unfold b_nfun in *. lia. Qed.
+
+Lemma pi_m : m = S (length k).
+Proof. apply insert_at_length. Qed.
+
+Lemma pi_img i : (i <= p + r)%nat -> kn k (i + nf) = kn k i + T.
+Proof. intros Hi. apply (Him Hper). rewrite pi_len. lia. Qed.
+
+Lemma pi_mu : (p <= mu <= length k - p)%nat /\ (forall j, (j < mu)%nat -> kn k j <= x) /\ (forall j, (mu <= j < length k)%nat -> x < kn k j).
+Proof.
+  destruct Hb as (Hp & Hlen & HK & Hse). unfold py_bisect_right.
+  destruct (bisect_right_spec (kn k) HK x (length k)) as (A & B & C). cbv zeta in *. split; [|split; assumption]. split.
+  - destruct (Nat.le_gt_cases p (bisect_right (kn k) x (length k))) as [L|L]; [exact L|]. specialize (C (p - 1)%nat ltac:(lia)). unfold b_start in Hx. lra.
+  - destruct (Nat.le_gt_cases (bisect_right (kn k) x (length k)) (length k - p)) as [L|L]; [exact L|]. specialize (B (length k - p)%nat L). unfold b_end in Hx. lra.
+Qed.
+
+Lemma pi_nth' j : nth j k' 0 = if (j <? mu)%nat then nth j k 0 else if (j =? mu)%nat then x else nth (j - 1) k 0.
+Proof. apply nth_insert_at. destruct pi_mu as ((_ & A) & _). lia. Qed.
+
+Lemma pi_sorted' : lsortedn k'.
+Proof.
+  destruct Hb as (Hp & Hlen & HK & Hse). destruct pi_mu as ((A1 & A2) & B & C). apply insert_at_lsorted.
+  - intros i j Hij. apply nth_of_sorted_kn; assumption.
+  - lia.
+  - intros j Hj. rewrite <- (kn_in k j) by lia. apply B. exact Hj.
+  - intros j Hj. rewrite <- (kn_in k j) by lia. left. apply C. exact Hj.
+Qed.
+
+(* the knot r+1 equals the start: the image of index r+1 is the end *)
+Lemma pi_kr1 : kn k (r + 1) = s.
+Proof.
+  pose proof (pi_img (r + 1)%nat ltac:(destruct Hb; lia)) as H. pose proof pi_len as HL.
+  replace (r + 1 + nf)%nat with (length k - p)%nat in H by lia. unfold b_end in *. lra.
+Qed.
+
+Lemma pi_mu_r : (r + 2 <= mu)%nat.
+Proof.
+  destruct pi_mu as (_ & _ & C). destruct (Nat.le_gt_cases (r + 2) mu) as [L|L]; [exact L|].
+  pose proof pi_len. destruct Hb as (Hp & _). specialize (C (r + 1)%nat ltac:(lia)). rewrite pi_kr1 in C. lra.
+Qed.
+
+Lemma pi_result : length per_kfin = S (length k) /\ lsortedn per_kfin /\ nth (p - 1) per_kfin 0 = s /\
+  nth (S (length k) - p) per_kfin 0 = e /\ forall i, (i <= p + r)%nat -> nth (i + nf + 1) per_kfin 0 = nth i per_kfin 0 + T.
+Proof.
+  pose proof Hb as (Hp & Hlen & HK & Hse). pose proof pi_len as HL. pose proof pi_m as Hm. destruct pi_mu as ((M1 & M2) & MB & MC).
+  pose proof pi_mu_r as M3. pose proof pi_sorted' as SK. pose proof (nth_of_sorted_kn k HK) as NK.
+  assert (KN : forall j, (j < length k)%nat -> kn k j = nth j k 0) by (intros j Hj; apply kn_in; exact Hj).
+  unfold per_kfin. rewrite Hm. replace (S (length k) - p - r - 1)%nat with (nf + 1)%nat by lia.
+  destruct (Nat.leb_spec mu (p + r)) as [CB|CB].
+  - (* repair_right *)
+    unfold repair_right. cbv zeta. replace (S (length k) - p - r - 1)%nat with (nf + 1)%nat by lia.
+    set (k0 := kn k' 0). set (k1 := kn k' (nf + 1)).
+    destruct (fold_copy (fun v => nadd k1 (nsub v k0)) k' (nf + 1) 0 (p + r + 1)) as [FL FN]; [rewrite Hm; lia|rewrite Hm; lia|lia|]. cbv zeta in FL, FN.
+    cbn [Nat.add] in FL, FN.
+    assert (E0 : k0 = nth 0 k 0) by (unfold k0; rewrite (kn_in k' 0%nat ltac:(lia) 0), pi_nth'; destruct (Nat.ltb_spec 0 mu); [reflexivity|lia]).
+    assert (E1 : k1 = nth 0 k 0 + T).
+    { unfold k1. rewrite (kn_in k' (nf + 1)%nat ltac:(lia) 0), pi_nth'. destruct (Nat.ltb_spec (nf + 1) mu); [lia|]. destruct (Nat.eqb_spec (nf + 1) mu); [lia|].
+      replace (nf + 1 - 1)%nat with (0 + nf)%nat by lia. rewrite <- KN by lia. rewrite pi_img by lia. rewrite KN by lia. reflexivity. }
+    assert (FN' : forall j, (j < S (length k))%nat -> nth j (fold_left (fun kk i => upd kk (nf + 1 + i) (nadd k1 (nsub (kn kk i) k0))) (seq 0 (p + r + 1)) k') 0 =
+                   if (nf + 1 <=? j)%nat then nth (j - (nf + 1)) k' 0 + T else nth j k' 0).
+    { intros j Hj. rewrite FN by lia. destruct (Nat.leb_spec (nf + 1) j); destruct (Nat.ltb_spec j (nf + 1 + (p + r + 1))); cbn [andb]; try lia; [|reflexivity].
+      cbn [nadd nsub NumR]. rewrite E0, E1. ring. }
+    clear FN. set (res := fold_left _ _ k') in *.
+    split; [rewrite FL; exact Hm|]. split; [|split; [|split]].
+    + intros i j Hij. rewrite FL, Hm in Hij. rewrite !FN' by lia.
+      destruct (Nat.leb_spec (nf + 1) i); destruct (Nat.leb_spec (nf + 1) j); try lia.
+      * pose proof (SK (i - (nf + 1))%nat (j - (nf + 1))%nat ltac:(lia)). lra.
+      * pose proof (SK i (nf + 1)%nat ltac:(lia)) as S1. pose proof (SK 0%nat (j - (nf + 1))%nat ltac:(lia)) as S2.
+        assert (E2 : nth (nf + 1) k' 0 = nth 0 k' 0 + T).
+        { rewrite <- (kn_in k' (nf + 1)%nat) by lia. fold k1. rewrite E1. rewrite <- (kn_in k' 0%nat) by lia. fold k0. rewrite E0. reflexivity. }
+        lra.
+      * apply SK. lia.
+    + rewrite FN' by lia. destruct (Nat.leb_spec (nf + 1) (p - 1)); [lia|]. rewrite pi_nth'. destruct (Nat.ltb_spec (p - 1) mu); [|lia].
+      symmetry. apply KN. lia.
+    + rewrite FN' by lia. destruct (Nat.leb_spec (nf + 1) (S (length k) - p)); [|lia]. replace (S (length k) - p - (nf + 1))%nat with (r + 1)%nat by lia.
+      rewrite pi_nth'. destruct (Nat.ltb_spec (r + 1) mu); [|lia]. rewrite <- KN by lia. rewrite pi_kr1. ring.
+    + intros i Hi. rewrite !FN' by lia. destruct (Nat.leb_spec (nf + 1) (i + nf + 1)); [|lia]. destruct (Nat.leb_spec (nf + 1) i); [lia|].
+      replace (i + nf + 1 - (nf + 1))%nat with i by lia. reflexivity.
+  - destruct (Nat.leb_spec (nf + 1) mu) as [CC|CC].
+    + (* repair_left *)
+      unfold repair_left. cbv zeta. replace (S (length k) - p - r - 1)%nat with (nf + 1)%nat by lia. replace (S (length k) - 1)%nat with (length k) by lia.
+      set (k0 := kn k' (p + r)). set (k1 := kn k' (length k)).
+      destruct (fold_copy (fun v => nsub k0 (nsub k1 v)) k' 0 (nf + 1) (p + r + 1)) as [FL FN]; [rewrite Hm; lia|rewrite Hm; lia|lia|]. cbv zeta in FL, FN.
+      cbn [Nat.add] in FL, FN.
+      assert (E0 : k0 = nth (p + r) k 0) by (unfold k0; rewrite (kn_in k' (p + r)%nat ltac:(lia) 0), pi_nth'; destruct (Nat.ltb_spec (p + r) mu); [reflexivity|lia]).
+      assert (E1 : k1 = nth (p + r) k 0 + T).
+      { unfold k1. rewrite (kn_in k' (length k) ltac:(lia) 0), pi_nth'. destruct (Nat.ltb_spec (length k) mu); [lia|]. destruct (Nat.eqb_spec (length k) mu); [lia|].
+        replace (length k - 1)%nat with (p + r + nf)%nat by lia. rewrite <- KN by lia. rewrite pi_img by lia. rewrite KN by lia. reflexivity. }
+      assert (FN' : forall j, (j < S (length k))%nat -> nth j (fold_left (fun kk i => upd kk i (nsub k0 (nsub k1 (kn kk (nf + 1 + i))))) (seq 0 (p + r + 1)) k') 0 =
+                     if (j <? p + r + 1)%nat then nth (nf + 1 + j) k' 0 - T else nth j k' 0).
+      { intros j Hj. rewrite FN by lia. destruct (Nat.ltb_spec j (p + r + 1)); cbn [Nat.leb andb]; [|reflexivity].
+        cbn [nsub NumR]. rewrite E0, E1, Nat.sub_0_r. ring. }
+      clear FN. set (res := fold_left _ _ k') in *.
+      assert (Hnp : (mu < nf + p)%nat).
+      { destruct (Nat.lt_ge_cases mu (nf + p)) as [L|L]; [exact L|exfalso]. pose proof (MB (nf + p - 1)%nat ltac:(lia)) as Q.
+        replace (nf + p - 1)%nat with (p - 1 + nf)%nat in Q by lia. rewrite pi_img in Q by lia. unfold b_start in Hx. unfold b_start, b_end in Q. unfold b_end in Hx. lra. }
+      split; [rewrite FL; exact Hm|]. split; [|split; [|split]].
+      * intros i j Hij. rewrite FL, Hm in Hij. rewrite !FN' by lia.
+        destruct (Nat.ltb_spec i (p + r + 1)); destruct (Nat.ltb_spec j (p + r + 1)); try lia.
+        -- pose proof (SK (nf + 1 + i)%nat (nf + 1 + j)%nat ltac:(lia)). lra.
+        -- pose proof (SK (nf + 1 + i)%nat (length k) ltac:(lia)) as S1. pose proof (SK (p + r)%nat j ltac:(lia)) as S2.
+           assert (E2 : nth (length k) k' 0 = nth (p + r) k' 0 + T).
+           { rewrite <- (kn_in k' (length k)) by lia. fold k1. rewrite E1. rewrite <- (kn_in k' (p + r)%nat) by lia. fold k0. rewrite E0. reflexivity. }
+           lra.
+        -- apply SK. lia.
+      * rewrite FN' by lia. destruct (Nat.ltb_spec (p - 1) (p + r + 1)); [|lia]. rewrite pi_nth'. destruct (Nat.ltb_spec (nf + 1 + (p - 1)) mu); [lia|].
+        destruct (Nat.eqb_spec (nf + 1 + (p - 1)) mu); [lia|]. replace (nf + 1 + (p - 1) - 1)%nat with (p - 1 + nf)%nat by lia.
+        rewrite <- KN by lia. rewrite pi_img by lia. unfold b_start. ring.
+      * rewrite FN' by lia. destruct (Nat.ltb_spec (S (length k) - p) (p + r + 1)); [lia|]. rewrite pi_nth'.
+        destruct (Nat.ltb_spec (S (length k) - p) mu); [lia|]. destruct (Nat.eqb_spec (S (length k) - p) mu); [lia|].
+        replace (S (length k) - p - 1)%nat with (length k - p)%nat by lia. rewrite <- KN by lia. reflexivity.
+      * intros i Hi. rewrite !FN' by lia. destruct (Nat.ltb_spec (i + nf + 1) (p + r + 1)); [lia|]. destruct (Nat.ltb_spec i (p + r + 1)); [|lia].
+        replace (nf + 1 + i)%nat with (i + nf + 1)%nat by lia. ring.
+    + (* no repair *)
+      split; [exact Hm|]. split; [exact SK|]. split; [|split].
+      * rewrite pi_nth'. destruct (Nat.ltb_spec (p - 1) mu); [|lia]. symmetry. apply KN. lia.
+      * rewrite pi_nth'. destruct (Nat.ltb_spec (S (length k) - p) mu); [lia|]. destruct (Nat.eqb_spec (S (length k) - p) mu); [lia|].
+        replace (S (length k) - p - 1)%nat with (length k - p)%nat by lia. rewrite <- KN by lia. reflexivity.
+      * intros i Hi. rewrite !pi_nth'. destruct (Nat.ltb_spec (i + nf + 1) mu); [lia|]. destruct (Nat.eqb_spec (i + nf + 1) mu); [lia|].
+        destruct (Nat.ltb_spec i mu); [|lia]. replace (i + nf + 1 - 1)%nat with (i + nf)%nat by lia. rewrite <- !KN by lia. apply pi_img. exact Hi.
+Qed.
+End PerInsert.
+
+Definition roomy (b : basis R) : Prop := (b_order b + b_per1 b - 1 <= b_nfun b)%nat.
+
+(* knot insertion into a periodic basis with exact ghost images and at least order + periodicity functions *)
+Lemma knots_ok_insert_per (b b' : basis R) x0 C : knots_ok b -> images_ok b -> b_per1 b <> 0%nat -> roomy b ->
+  basis_insert_knot b x0 = Ok (b', C) ->
+  knots_ok b' /\ images_ok b' /\ roomy b' /\ b_per1 b' = b_per1 b /\ b_order b' = b_order b /\ b_nfun b' = S (b_nfun b) /\
+  b_start b' = b_start b /\ b_end b' = b_end b.
+Proof.
+  intros Hb Him Hper Hroom. pose proof Hb as (Hp & Hlen & HK & Hse). unfold basis_insert_knot, wrap_knot.
+  destruct (Nat.eqb_spec (b_per1 b) 0) as [E0|_]; [contradiction|]. cbn [negb]. cbv zeta.
+  set (x := if nltb x0 (b_start b) || nleb (b_end b) x0 then nadd (nfmod (nsub x0 (b_start b)) (nsub (b_end b) (b_start b))) (b_start b) else x0).
+  assert (Hx : b_start b <= x < b_end b).
+  { assert (HT : 0 < b_end b - b_start b) by lra. pose proof (nfmod_range (x0 - b_start b) (b_end b - b_start b) HT) as NR.
+    unfold x. cbn [nltb nleb nadd nsub NumR]. destruct (Rltb_spec x0 (b_start b)) as [A|A]; cbn [orb]; [lra|].
+    destruct (Rleb_spec (b_end b) x0) as [A'|A']; lra. }
+  destruct (negb _); [discriminate|]. intros [= <- _].
+  change (mkBasis (b_order b) _ (b_per1 b)) with (mkBasis (b_order b) (per_kfin b x) (b_per1 b)).
+  destruct (pi_result b Hb Him Hper Hroom x Hx) as (RL & RS & Rs & Re & Ri).
+  assert (HL : length (b_knots b) = (b_nfun b + b_order b + (b_per1 b - 1) + 1)%nat) by (unfold roomy, b_nfun in *; lia).
+  assert (Hs' : b_start (mkBasis (b_order b) (per_kfin b x) (b_per1 b)) = b_start b).
+  { unfold b_start at 1. cbn [b_order b_knots]. rewrite (kn_in (per_kfin b x) (b_order b - 1)%nat ltac:(lia) 0). exact Rs. }
+  assert (He' : b_end (mkBasis (b_order b) (per_kfin b x) (b_per1 b)) = b_end b).
+  { unfold b_end at 1. cbn [b_order b_knots]. rewrite RL. rewrite (kn_in (per_kfin b x) (S (length (b_knots b)) - b_order b)%nat ltac:(lia) 0). exact Re. }
+  assert (Hn' : b_nfun (mkBasis (b_order b) (per_kfin b x) (b_per1 b)) = S (b_nfun b)).
+  { unfold b_nfun. cbn [b_order b_knots b_per1]. rewrite RL. unfold roomy, b_nfun in Hroom. lia. }
+  split; [|split; [|split; [|split; [reflexivity|split; [reflexivity|split; [exact Hn'|split; [exact Hs'|exact He']]]]]]].
+  - split; [exact Hp|]. split; [cbn [b_order b_knots]; rewrite RL; lia|]. split; [apply sorted_kn_of_nth; exact RS|rewrite Hs', He'; exact Hse].
+  - intros _ i Hi. rewrite Hs', He', Hn' in *. cbn [b_knots] in *. rewrite RL in Hi.
+    rewrite (kn_in (per_kfin b x) (i + S (b_nfun b))%nat ltac:(lia) 0), (kn_in (per_kfin b x) i ltac:(lia) 0).
+    replace (i + S (b_nfun b))%nat with (i + b_nfun b + 1)%nat by lia. apply Ri. lia.
+  - unfold roomy in *. rewrite Hn'. cbn [b_order b_per1]. lia.
+Qed.
+
+Lemma insert_knots_bases_per xs : forall (o o' : obj R) d, Forall knots_ok (o_bases o) -> (d < length (o_bases o))%nat ->
+  b_per1 (nth d (o_bases o) dflt_basis) <> 0%nat -> images_ok (nth d (o_bases o) dflt_basis) -> roomy (nth d (o_bases o) dflt_basis) ->
+  obj_insert_knots o d xs = Ok o' ->
+  Forall knots_ok (o_bases o') /\ images_ok (nth d (o_bases o') dflt_basis) /\ roomy (nth d (o_bases o') dflt_basis) /\
+  b_per1 (nth d (o_bases o') dflt_basis) = b_per1 (nth d (o_bases o) dflt_basis) /\
+  (forall i, i <> d -> nth i (o_bases o') dflt_basis = nth i (o_bases o) dflt_basis).
+Proof.
+  induction xs as [|x xs IH]; intros o o' d HB Hd Hper Him Hroom; cbn [obj_insert_knots].
+  - intros [= <-]. repeat split; auto.
+  - fold dflt_basis. destruct (basis_insert_knot (nth d (o_bases o) dflt_basis) x) as [[b' C]|e] eqn:E; [|discriminate].
+    destruct (knots_ok_insert_per _ _ _ _ (Forall_nth_in _ _ d dflt_basis HB Hd) Him Hper Hroom E) as (K1 & K2 & K3 & K4 & _).
+    intros Hrun. apply IH in Hrun; cbn [o_bases] in *.
+    + rewrite InsertEndToEnd.upd_nth_same in Hrun by exact Hd. destruct Hrun as (R1 & R2 & R3 & R4 & R5).
+      split; [exact R1|]. split; [exact R2|]. split; [exact R3|]. split; [congruence|].
+      intros i Hi. rewrite R5 by exact Hi. apply upd_nth_other. exact Hi.
+    + apply Forall_upd; assumption.
+    + rewrite upd_length. exact Hd.
+    + rewrite InsertEndToEnd.upd_nth_same by exact Hd. congruence.
+    + rewrite InsertEndToEnd.upd_nth_same by exact Hd. exact K2.
+    + rewrite InsertEndToEnd.upd_nth_same by exact Hd. exact K3.
+Qed.
+
+(* a periodic insertion never fails: the index accesses of the second loop stay inside the knot vector *)
+Lemma basis_insert_knot_per_ok (b : basis R) x0 : knots_ok b -> b_per1 b <> 0%nat -> exists b' C, basis_insert_knot b x0 = Ok (b', C).
+Proof.
+  intros Hb Hper. pose proof Hb as (Hp & Hlen & HK & Hse). unfold basis_insert_knot, wrap_knot.
+  destruct (Nat.eqb_spec (b_per1 b) 0) as [E0|_]; [contradiction|]. cbn [negb]. cbv zeta.
+  set (x := if nltb x0 (b_start b) || nleb (b_end b) x0 then nadd (nfmod (nsub x0 (b_start b)) (nsub (b_end b) (b_start b))) (b_start b) else x0).
+  assert (Hx : b_start b <= x < b_end b).
+  { assert (HT : 0 < b_end b - b_start b) by lra. pose proof (nfmod_range (x0 - b_start b) (b_end b - b_start b) HT) as NR.
+    unfold x. cbn [nltb nleb nadd nsub NumR]. destruct (Rltb_spec x0 (b_start b)) as [A|A]; cbn [orb]; [lra|].
+    destruct (Rleb_spec (b_end b) x0) as [A'|A']; lra. }
+  clearbody x. set (mu := py_bisect_right (b_knots b) x).
+  assert (Hmu : (b_order b <= mu <= length (b_knots b) - b_order b)%nat).
+  { unfold mu, py_bisect_right. destruct (bisect_right_spec (kn (b_knots b)) HK x (length (b_knots b))) as (A & B & C). cbv zeta in *. split.
+    - destruct (Nat.le_gt_cases (b_order b) (bisect_right (kn (b_knots b)) x (length (b_knots b)))) as [L|L]; [exact L|].
+      specialize (C (b_order b - 1)%nat ltac:(lia)). unfold b_start in Hx. lra.
+    - destruct (Nat.le_gt_cases (bisect_right (kn (b_knots b)) x (length (b_knots b))) (length (b_knots b) - b_order b)) as [L|L]; [exact L|].
+      specialize (B (length (b_knots b) - b_order b)%nat L). unfold b_end in Hx. lra. }
+  match goal with |- context [forallb ?f ?l] => assert (EF : forallb f l = true) end.
+  { apply forallb_forall. intros i Hi. apply in_seq in Hi. repeat (apply andb_true_iff; split).
+    - apply Nat.ltb_lt. lia.
+    - destruct (nleb _ _); [apply Nat.ltb_lt; lia|reflexivity].
+    - destruct (nleb _ _); [apply Nat.ltb_lt; lia|reflexivity].
+    - destruct (_ && _); [reflexivity|apply Nat.ltb_lt; lia]. }
+  rewrite EF. cbn [negb]. eexists. eexists. reflexivity.
+Qed.
+
 Lemma knots_ok_reverse (b : basis R) : knots_ok b ->
   knots_ok (basis_reverse b) /\ b_start (basis_reverse b) = b_start b /\ b_end (basis_reverse b) = b_end b /\
   b_per1 (basis_reverse b) = b_per1 b /\ b_nfun (basis_reverse b) = b_nfun b.
@@ -182,10 +470,11 @@ Proof.
   cbn [rp_basis b_knots]. unfold rp_map. apply sorted_aff; [apply rp_al_pos; assumption|exact Hne|exact HK].
 Qed.
 
-(* the guard of the old operations: knot insertion wants a non-periodic direction *)
+(* the guard of the old operations: knot insertion wants a non-periodic direction, or a periodic one whose ghost knots are
+   exact images and which has at least order + periodicity functions *)
 Definition guard_old (o : obj R) (a : @op R) : Prop :=
   match a with
-  | OpInsert d xs => b_per1 (nth d (o_bases o) dflt_basis) = 0%nat
+  | OpInsert d xs => let bd := nth d (o_bases o) dflt_basis in b_per1 bd = 0%nat \/ (images_ok bd /\ roomy bd)
   | _ => True
   end.
 
@@ -196,8 +485,9 @@ Theorem step_preserves_inv (o o' : obj R) (a : @op R) : inv o -> guard_old o a -
 Proof.
   intros [HS HB] G E. split; [exact (proj1 (step_preserves_shape o o' a HS E))|].
   destruct a as [d xs|d|d1 d2|d s e|x|s|keep|n|]; cbn [step guard_old] in *; unfold o_pardim in *.
-  - destruct (Nat.ltb_spec d (length (o_bases o))) as [Hd|Hd]; [|discriminate].
-    exact (proj1 (insert_knots_bases xs o o' d HB Hd G E)).
+  - destruct (Nat.ltb_spec d (length (o_bases o))) as [Hd|Hd]; [|discriminate]. cbv zeta in G.
+    destruct (Nat.eq_dec (b_per1 (nth d (o_bases o) dflt_basis)) 0) as [P0|P0]; [exact (proj1 (insert_knots_bases xs o o' d HB Hd P0 E))|].
+    destruct G as [G|[G1 G2]]; [contradiction|]. exact (proj1 (insert_knots_bases_per xs o o' d HB Hd P0 G1 G2 E)).
   - destruct (Nat.ltb_spec d (length (o_bases o))) as [Hd|Hd]; [|discriminate]. injection E as <-.
     unfold obj_reverse. cbv zeta. cbn [o_bases]. apply Forall_upd; [exact HB|].
     apply knots_ok_reverse. apply Forall_nth_in; assumption.
@@ -465,7 +755,7 @@ Proof.
   set (o1 := mkObj (upd (o_bases o) d b') (apply_dir (o_ncomp o) (o_shape o) d C (o_cps o)) (o_dim o) (o_rat o)).
   assert (E1 : step o (OpInsert d [x]) = Ok o1).
   { cbn [step]. unfold o_pardim. destruct (Nat.ltb_spec d (length (o_bases o))); [|lia]. cbn [obj_insert_knots]. fold dflt_basis. fold bd. rewrite E. reflexivity. }
-  pose proof (step_preserves_inv o o1 (OpInsert d [x]) HI Hper E1) as HI1.
+  pose proof (step_preserves_inv o o1 (OpInsert d [x]) HI (or_introl Hper) E1) as HI1.
   destruct HI as [HS HB]. pose proof (Forall_nth_in _ _ d dflt_basis HB Hd) as Hbd. fold bd in Hbd.
   inversion Hxs as [|? ? Hx Hxs']; subst.
   destruct (knots_ok_insert bd b' x C Hbd Hper E) as (K1 & K2 & K3 & K4 & K5 & K6). specialize (K6 Hx).
@@ -498,7 +788,7 @@ Qed.
 (* knot insertion keeps the weights positive when the new knots lie strictly below the end of the domain *)
 Definition guard_w_old (o : obj R) (a : @op R) : Prop :=
   match a with
-  | OpInsert d xs => Forall (fun x => x < b_end (nth d (o_bases o) dflt_basis)) xs
+  | OpInsert d xs => b_per1 (nth d (o_bases o) dflt_basis) = 0%nat /\ Forall (fun x => x < b_end (nth d (o_bases o) dflt_basis)) xs
   | _ => True
   end.
 
@@ -508,7 +798,7 @@ Proof.
   intros HI HW G GW E. pose proof HI as [HS HB].
   destruct a as [d xs|d|d1 d2|d s e|x|s|keep|n|]; cbn [step guard_old guard_w_old] in *; unfold o_pardim in *.
   - destruct (Nat.ltb_spec d (length (o_bases o))) as [Hd|Hd]; [|discriminate].
-    exact (insert_knots_weights xs o o' d HI HW Hd G GW E).
+    destruct GW as [Hper GW]. exact (insert_knots_weights xs o o' d HI HW Hd Hper GW E).
   - destruct (Nat.ltb_spec d (length (o_bases o))) as [Hd|Hd]; [|discriminate]. injection E as <-.
     unfold obj_reverse. cbv zeta. unfold weights_pos. cbn [o_rat o_cps o_dim]. intros Hr. destruct HS as (HL & HV & HP).
     apply (apply_dir_wpos (o_ncomp o) (o_dim o)).
@@ -756,6 +1046,55 @@ Proof.
     split; [|rewrite Hs, He; exact Hse]. apply sorted_kn_of_nth. apply mpg_LSb.
   - unfold b_nfun at 1. change (b_order (basis_make_periodic b c)) with p. change (b_per1 (basis_make_periodic b c)) with (c + 1)%nat.
     rewrite mpg_length. lia.
+Qed.
+Lemma mpg_nth_head i : (i <= c)%nat -> nth i k' 0 = kn k (length k - p - c - 1 + i) - (e - s).
+Proof.
+  intros Hi. rewrite mpg_knots. rewrite app_nth1 by (rewrite map_length, mpg_head_length; lia).
+  rewrite (nth_map0 (fun x => x + (s - e))) by (rewrite mpg_head_length; lia). rewrite nth_slice by lia. rewrite mpg_nk_nth by lia.
+  replace (p - 1 + (length k - 2 * p - c + i))%nat with (length k - p - c - 1 + i)%nat by lia. ring.
+Qed.
+Lemma mpg_nth_r1 i : (c < i < p - 1)%nat -> nth i k' 0 = s.
+Proof.
+  intros Hi. rewrite mpg_knots. rewrite app_nth2 by (rewrite map_length, mpg_head_length; lia). rewrite map_length, mpg_head_length.
+  rewrite app_nth1 by (rewrite repeat_length; lia). apply nth_repeat_lt. lia.
+Qed.
+Lemma mpg_nth_r2 i : (length k - p < i < length k - c - 1)%nat -> nth i k' 0 = e.
+Proof.
+  intros Hi. rewrite mpg_knots. rewrite app_nth2 by (rewrite map_length, mpg_head_length; lia). rewrite map_length, mpg_head_length.
+  rewrite app_nth2 by (rewrite repeat_length; lia). rewrite repeat_length. rewrite app_nth2 by (rewrite mpg_nk_length; lia). rewrite mpg_nk_length.
+  rewrite app_nth1 by (rewrite repeat_length; lia). apply nth_repeat_lt. lia.
+Qed.
+Lemma mpg_nth_tail i : (i <= c)%nat -> nth (length k - c - 1 + i) k' 0 = kn k (p + i) + (e - s).
+Proof.
+  intros Hi. rewrite mpg_knots. rewrite app_nth2 by (rewrite map_length, mpg_head_length; lia). rewrite map_length, mpg_head_length.
+  rewrite app_nth2 by (rewrite repeat_length; lia). rewrite repeat_length. rewrite app_nth2 by (rewrite mpg_nk_length; lia). rewrite mpg_nk_length.
+  rewrite app_nth2 by (rewrite repeat_length; lia). rewrite repeat_length.
+  replace (length k - c - 1 + i - (c + 1) - (p - 2 - c) - (length k - 2 * p + 2) - (p - 2 - c))%nat with i by lia.
+  rewrite (nth_map0 (fun x => x + (e - s))) by (rewrite mpg_tail_length; lia). rewrite nth_slice by lia. rewrite mpg_nk_nth by lia.
+  replace (p - 1 + (1 + i))%nat with (p + i)%nat by lia. reflexivity.
+Qed.
+
+Lemma images_make_periodic : images_ok (basis_make_periodic b c).
+Proof.
+  destruct knots_ok_make_periodic as (_ & Hs & He & Hnf & _). pose proof Hb as (Hp & Hlen & HK & Hse).
+  intros _ i Hi. rewrite Hs, He, Hnf in *. rewrite mpg_length in Hi.
+  rewrite (kn_in k' (i + (length k - p - c - 1))%nat ltac:(rewrite mpg_length; lia) 0), (kn_in k' i ltac:(rewrite mpg_length; lia) 0).
+  destruct (Nat.le_gt_cases i c) as [C1|C1].
+  - rewrite (mpg_nth_head i C1). replace (i + (length k - p - c - 1))%nat with (p - 1 + (length k - 2 * p - c + i))%nat by lia.
+    rewrite mpg_nth_mid by lia. replace (p - 1 + (length k - 2 * p - c + i))%nat with (length k - p - c - 1 + i)%nat by lia. ring.
+  - destruct (Nat.lt_ge_cases i (p - 1)) as [C2|C2].
+    + rewrite (mpg_nth_r1 i) by lia. destruct (Nat.eq_dec (i + (length k - p - c - 1)) (length k - p)) as [E0|N0].
+      * rewrite E0. replace (length k - p)%nat with (p - 1 + (length k - 2 * p + 1))%nat at 1 by lia. rewrite mpg_nth_mid by lia.
+        unfold b_end, b_start. replace (p - 1 + (length k - 2 * p + 1))%nat with (length k - p)%nat by lia. ring.
+      * rewrite (mpg_nth_r2 (i + (length k - p - c - 1))) by lia. ring.
+    + destruct (Nat.eq_dec i (p - 1)) as [E1|N1].
+      * subst i. replace (nth (p - 1) k' 0) with (nth (p - 1 + 0) k' 0) by (f_equal; lia). rewrite (mpg_nth_mid 0) by lia. rewrite Nat.add_0_r.
+        destruct (Nat.eq_dec p (c + 2)) as [E2|N2].
+        -- replace (p - 1 + (length k - p - c - 1))%nat with (p - 1 + (length k - 2 * p + 1))%nat by lia. rewrite (mpg_nth_mid (length k - 2 * p + 1)) by lia.
+           unfold b_end, b_start. replace (p - 1 + (length k - 2 * p + 1))%nat with (length k - p)%nat by lia. ring.
+        -- rewrite (mpg_nth_r2 (p - 1 + (length k - p - c - 1))) by lia. unfold b_start. ring.
+      * replace (i + (length k - p - c - 1))%nat with (length k - c - 1 + (i - p))%nat by lia. rewrite mpg_nth_tail by lia.
+        replace (nth i k' 0) with (nth (p - 1 + (i - p + 1)) k' 0) by (f_equal; lia). rewrite (mpg_nth_mid (i - p + 1)) by lia. replace (p - 1 + (i - p + 1))%nat with (p + (i - p))%nat by lia. ring.
 Qed.
 End MakePer.
 
@@ -1209,7 +1548,7 @@ Proof.
   set (xs := repeat x _). destruct (obj_insert_knots o d xs) as [o1|er] eqn:E1; [|discriminate].
   inversion Hks as [|? ? Hx Hks']; subst.
   assert (Es : step o (OpInsert d xs) = Ok o1) by (cbn [step]; unfold o_pardim; destruct (Nat.ltb_spec d (length (o_bases o))); [exact E1|lia]).
-  pose proof (step_preserves_inv o o1 (OpInsert d xs) HI Hper Es) as HI1.
+  pose proof (step_preserves_inv o o1 (OpInsert d xs) HI (or_introl Hper) Es) as HI1.
   destruct HI as [HS HB]. destruct (insert_knots_shape xs o o1 d HS Hd E1) as [_ Hl1].
   destruct (insert_knots_bases xs o o1 d HB Hd Hper E1) as (_ & P1 & _ & P2 & _).
   assert (HW1 : weights_pos o1).
@@ -1500,8 +1839,8 @@ Lemma reparam01_facts (o o' : obj R) i : inv o -> nonper o -> (i < length (o_bas
 Proof.
   intros HI HN Hi E.
   assert (Es : step o (OpReparam i 0 1) = Ok o') by (cbn [step]; unfold o_pardim; destruct (Nat.ltb_spec i (length (o_bases o))); [exact E|lia]).
-  split; [exact (step_preserves_inv o o' _ HI I Es)|]. split; [exact (step_nonper o o' _ HI HN Es)|].
-  split; [exact (proj2 (step_preserves_shape o o' _ (proj1 HI) Es))|].
+  split; [exact (step_preserves_inv o o' (OpReparam i 0 1) HI I Es)|]. split; [exact (step_nonper o o' (OpReparam i 0 1) HI HN Es)|].
+  split; [exact (proj2 (step_preserves_shape o o' (OpReparam i 0 1) (proj1 HI) Es))|].
   unfold obj_reparam_dir in E. fold dflt_basis in E. destruct (basis_reparam (nth i (o_bases o) dflt_basis) 0 1) as [b'|er] eqn:Eb; [|discriminate].
   injection E as <-. cbn [o_bases]. rewrite InsertEndToEnd.upd_nth_same by exact Hi.
   destruct (knots_ok_reparam _ b' 0 1 (Forall_nth_in _ _ i dflt_basis (proj2 HI) Hi) Eb) as (_ & P1 & P2 & _). split; assumption.
@@ -1512,8 +1851,8 @@ Lemma insert_facts (o o' : obj R) i xs : inv o -> nonper o -> (i < length (o_bas
 Proof.
   intros HI HN Hi E.
   assert (Es : step o (OpInsert i xs) = Ok o') by (cbn [step]; unfold o_pardim; destruct (Nat.ltb_spec i (length (o_bases o))); [exact E|lia]).
-  split; [exact (step_preserves_inv o o' _ HI (Forall_nth_in _ _ i dflt_basis HN Hi) Es)|]. split; [exact (step_nonper o o' _ HI HN Es)|].
-  exact (proj2 (step_preserves_shape o o' _ (proj1 HI) Es)).
+  split; [exact (step_preserves_inv o o' (OpInsert i xs) HI (or_introl (Forall_nth_in _ _ i dflt_basis HN Hi)) Es)|]. split; [exact (step_nonper o o' (OpInsert i xs) HI HN Es)|].
+  exact (proj2 (step_preserves_shape o o' (OpInsert i xs) (proj1 HI) Es)).
 Qed.
 
 Definition pair_ok (a b : obj R) : Prop :=
@@ -1533,19 +1872,19 @@ Proof.
 Qed.
 
 Lemma identical_dir_facts tol (a b a' b' : obj R) i : 0 <= tol < 1 -> pair_ok a b -> (i < length (o_bases a))%nat ->
-  identical_dir tol a b i = Ok (a', b') -> pair_ok a' b'.
+  identical_dir tol a b i = Ok (a', b') -> pair_ok a' b' /\ length (o_bases a') = length (o_bases a).
 Proof.
   intros Ht HP Hi. unfold identical_dir. pose proof (compatible_pair a b HP) as HC.
-  assert (Hi0 : (i < length (o_bases (fst (obj_compatible a b))))%nat).
-  { destruct HP as (Ia & Ib & _). destruct (compatible_facts a b Ia Ib) as (_ & _ & C3 & _). cbv zeta in C3. rewrite C3. exact Hi. }
+  assert (Hi0 : length (o_bases (fst (obj_compatible a b))) = length (o_bases a)).
+  { destruct HP as (Ia & Ib & _). destruct (compatible_facts a b Ia Ib) as (_ & _ & C3 & _). cbv zeta in C3. rewrite C3. reflexivity. }
   destruct (obj_compatible a b) as [a0 b0]. cbn [fst snd] in HC, Hi0. destruct HC as (Ia0 & Ib0 & Na0 & Nb0 & L0).
   destruct (obj_reparam_dir a0 i n0 n1) as [a1|er] eqn:Ea1; [|discriminate].
   destruct (obj_reparam_dir b0 i n0 n1) as [b1|er] eqn:Eb1; [|discriminate]. cbv zeta. fold dflt_basis.
-  destruct (reparam01_facts a0 a1 i Ia0 Na0 Hi0 Ea1) as (Ia1 & Na1 & La1 & Sa1 & Ea1').
+  destruct (reparam01_facts a0 a1 i Ia0 Na0 ltac:(lia) Ea1) as (Ia1 & Na1 & La1 & Sa1 & Ea1').
   destruct (reparam01_facts b0 b1 i Ib0 Nb0 ltac:(lia) Eb1) as (Ib1 & Nb1 & Lb1 & Sb1 & Eb1').
   rewrite (Forall_nth_in _ _ i dflt_basis Na1 ltac:(lia)), (Forall_nth_in _ _ i dflt_basis Nb1 ltac:(lia)). cbn [Nat.ltb Nat.leb].
   set (p1 := b_order (nth i (o_bases a1) dflt_basis)). set (p2 := b_order (nth i (o_bases b1) dflt_basis)).
-  destruct (obj_raise_order tol a1 _) as [a3|er] eqn:Ea3; [|destruct (obj_raise_order tol b1 _); discriminate].
+  destruct (obj_raise_order tol a1 _) as [a3|er] eqn:Ea3; [|try discriminate; match goal with |- context [obj_raise_order tol b1 ?r] => destruct (obj_raise_order tol b1 r) end; discriminate].
   destruct (obj_raise_order tol b1 _) as [b3|er] eqn:Eb3; [|discriminate].
   destruct (raise_nonper tol a1 a3 _ Ia1 Na1 (unit_raise_guard tol a1 i _ Ht Na1 Sa1 Ea1') Ea3) as (Ia3 & Na3 & La3).
   destruct (raise_nonper tol b1 b3 _ Ib1 Nb1 (unit_raise_guard tol b1 i _ Ht Nb1 Sb1 Eb1') Eb3) as (Ib3 & Nb3 & Lb3).
@@ -1555,17 +1894,36 @@ Proof.
   destruct (obj_insert_knots a3 i ins1) as [a4|er] eqn:Ea4; [|discriminate]. intros [= <- <-].
   destruct (insert_facts b3 b4 i ins2 Ib3 Nb3 ltac:(lia) Eb4) as (Ib4 & Nb4 & Lb4).
   destruct (insert_facts a3 a4 i ins1 Ia3 Na3 ltac:(lia) Ea4) as (Ia4 & Na4 & La4).
-  unfold pair_ok. repeat (split; try assumption). lia.
+  unfold pair_ok. split; [repeat (split; try assumption); lia|lia].
 Qed.
 
 Lemma identical_dirs_facts tol dirs : 0 <= tol < 1 -> forall (a b a' b' : obj R), pair_ok a b -> Forall (fun i => i < length (o_bases a))%nat dirs ->
-  identical_dirs tol a b dirs = Ok (a', b') -> pair_ok a' b'.
+  identical_dirs tol a b dirs = Ok (a', b') -> pair_ok a' b' /\ length (o_bases a') = length (o_bases a).
 Proof.
-  intros Ht. induction dirs as [|i rest IH]; intros a b a' b' HP Hd; cbn [identical_dirs]; [intros [= <- <-]; exact HP|].
+  intros Ht. induction dirs as [|i rest IH]; intros a b a' b' HP Hd; cbn [identical_dirs]; [intros [= <- <-]; split; [exact HP|reflexivity]|].
   inversion Hd as [|? ? Hi Hd']; subst. destruct (identical_dir tol a b i) as [[a1 b1]|er] eqn:E; [|discriminate].
-  pose proof (identical_dir_facts tol a b a1 b1 i Ht HP Hi E) as HP1. apply IH; [exact HP1|].
-  admit.
-Admitted.
+  destruct (identical_dir_facts tol a b a1 b1 i Ht HP Hi E) as [HP1 HL1]. intros E'.
+  destruct (IH a1 b1 a' b' HP1 ltac:(rewrite HL1; exact Hd') E') as [R1 R2]. split; [exact R1|lia].
+Qed.
+
+(* side condition of make_splines_identical: tolerance below the width of the unit interval, no periodic direction in
+   either object, same parametric dimension, the second operand satisfies the invariant *)
+Definition guard_identical (tol : R) (o o2 : obj R) (dir : option nat) : Prop :=
+  0 <= tol < 1 /\ inv o2 /\ nonper o /\ nonper o2 /\ length (o_bases o) = length (o_bases o2) /\
+  match dir with Some i => (i < length (o_bases o))%nat | None => True end.
+
+Lemma make_identical_inv tol (o o2 : obj R) dir ab : inv o -> guard_identical tol o o2 dir ->
+  obj_make_identical tol o o2 dir = Ok ab -> inv (fst ab) /\ inv (snd ab) /\ nonper (fst ab) /\ length (o_bases (fst ab)) = length (o_bases o).
+Proof.
+  intros HI (Ht & HI2 & N1 & N2 & HL & Hd). unfold obj_make_identical.
+  assert (HP : pair_ok o o2) by (unfold pair_ok; repeat (split; try assumption)).
+  pose proof (compatible_pair o o2 HP) as HC. destruct (compatible_facts o o2 HI HI2) as (_ & _ & C3 & _). cbv zeta in C3.
+  destruct (obj_compatible o o2) as [a b]. cbn [fst snd] in HC, C3. destruct ab as [a' b']. cbn [fst snd].
+  destruct dir as [i|]; intros E.
+  - destruct (identical_dir_facts tol a b a' b' i Ht HC ltac:(rewrite C3; exact Hd) E) as [(R1 & R2 & R3 & _) RL]. repeat (split; try assumption). congruence.
+  - destruct (identical_dirs_facts tol (seq 0 (o_pardim a)) Ht a b a' b' HC) as [(R1 & R2 & R3 & _) RL]; [|exact E|repeat (split; try assumption); congruence].
+    apply Forall_forall. intros i Hi. apply in_seq in Hi. unfold o_pardim in Hi. lia.
+Qed.
 
 (* ------------------------------------------------------------------------------------------------ *)
 (* the side conditions, per operation and per state *)
@@ -1581,7 +1939,7 @@ Definition guard2 (tol : R) (o : obj R) (a : @op2 R) : Prop :=
   | OpMakePeriodic cont d => guard_make_periodic o cont d
   | OpLowerPeriodic _ _ => False
   | OpAppend o2 => guard_append tol o o2
-  | OpMakeIdentical _ _ => False
+  | OpMakeIdentical o2 dir => guard_identical tol o o2 dir
   end.
 
 (* additional side conditions for the positivity of the weights *)
@@ -1590,6 +1948,7 @@ Definition guardw2 (o : obj R) (a : @op2 R) : Prop :=
   | OpOld a' => guard_w_old o a'
   | OpRaise am => Forall (fun r => r = 0%nat) am          (* interpolation at the Greville points does not keep weights positive *)
   | OpAppend o2 => weights_pos o2 /\ b_order (nth 0 (o_bases o) dflt_basis) = b_order (nth 0 (o_bases o2) dflt_basis)
+  | OpMakeIdentical _ _ => False                           (* may raise the order *)
   | _ => True
   end.
 
@@ -1609,6 +1968,8 @@ Proof.
   - cbn [step2] in E. destruct (Nat.ltb_spec d (o_pardim o)) as [L|L]; [|discriminate]. exact (make_periodic_inv o o' cont d HI L G E).
   - cbn [step2] in E. destruct (Nat.eqb_spec (o_pardim o) 1) as [L1|L1]; [|discriminate]. destruct (Nat.eqb_spec (o_pardim o2) 1) as [L2|L2]; [|discriminate].
     cbn [andb] in E. exact (proj1 (append_inv tol o o2 o' HI L1 L2 G E)).
+  - cbn [step2] in E. destruct (obj_make_identical tol o o2 dir) as [ab|er] eqn:EI; [|discriminate]. injection E as <-.
+    exact (proj1 (make_identical_inv tol o o2 dir ab HI G EI)).
 Qed.
 
 Theorem step2_preserves_weights tol (o o' : obj R) (a : @op2 R) : inv o -> weights_pos o -> guard2 tol o a -> guardw2 o a ->
@@ -1627,6 +1988,110 @@ Proof.
   - cbn [step2] in E. destruct (Nat.ltb_spec d (o_pardim o)) as [L|L]; [|discriminate]. exact (make_periodic_weights o o' cont d HI HW L G E).
   - cbn [step2] in E. destruct (_ && _); [|discriminate]. destruct G as (HI2 & _). destruct GW as [HW2 Hp].
     exact (append_weights tol o o2 o' HI HW HI2 HW2 Hp E).
+Qed.
+
+(* ------------------------------------------------------------------------------------------------ *)
+(* the ghost knots of periodic directions stay exact periodic images *)
+Lemma images_reverse (b : basis R) : knots_ok b -> images_ok b -> images_ok (basis_reverse b).
+Proof.
+  intros Hb Him. pose proof (knots_ne b Hb) as Hne. destruct (knots_ok_reverse b Hb) as (_ & Hs & He & Hp1 & Hnf).
+  destruct Hb as (Hp & Hlen & HK & Hse). intros Hper i Hi. rewrite Hs, He, Hnf in *. rewrite Hp1 in Hper.
+  rewrite (basis_reverse_eq b Hse) in *. cbn [b_knots] in *. rewrite rknots_length in Hi. rewrite !rknots_kn by exact Hne.
+  pose proof (Him Hper (length (b_knots b) - 1 - (i + b_nfun b))%nat ltac:(lia)) as Hj.
+  replace (length (b_knots b) - 1 - (i + b_nfun b) + b_nfun b)%nat with (length (b_knots b) - 1 - i)%nat in Hj by lia. lra.
+Qed.
+
+Lemma images_reparam (b b' : basis R) s e : knots_ok b -> images_ok b -> basis_reparam b s e = Ok b' -> images_ok b'.
+Proof.
+  intros Hb Him E. pose proof (knots_ne b Hb) as Hne. destruct Hb as (Hp & Hlen & HK & Hse).
+  assert (Hlt : s < e) by (unfold basis_reparam in E; cbn [nleb NumR] in E; destruct (Rleb_spec e s); [discriminate|lra]).
+  rewrite (basis_reparam_ok b Hne Hse s e Hlt) in E. injection E as <-.
+  intros Hper i Hi. rewrite (rp_start b Hne s e), (rp_end b Hne Hse s e).
+  assert (Hnf : b_nfun (rp_basis b s e) = b_nfun b) by (unfold b_nfun; cbn [rp_basis b_knots b_order b_per1]; rewrite map_length; reflexivity).
+  rewrite Hnf in *. cbn [rp_basis b_knots b_per1] in *. rewrite map_length in Hi. unfold rp_map. rewrite !kn_aff by exact Hne.
+  rewrite (Him Hper i Hi). unfold aff, rp_al. field. lra.
+Qed.
+
+Lemma Forall_by_nth {A} (P : A -> Prop) (l l' : list A) (dflt : A) : length l' = length l ->
+  (forall i, (i < length l)%nat -> P (nth i l' dflt)) -> Forall P l'.
+Proof. intros HL H. apply Forall_nth. intros i dd Hi. rewrite (nth_indep _ dd dflt Hi). apply H. lia. Qed.
+
+Lemma step_ghost (o o' : obj R) (a : @op R) : inv o -> ghost_ok o -> guard_old o a -> step o a = Ok o' -> ghost_ok o'.
+Proof.
+  intros [HS HB] HG G E. unfold ghost_ok in *.
+  destruct a as [d xs|d|d1 d2|d s e|x|s|keep|n|]; cbn [step guard_old] in *; unfold o_pardim in *.
+  - destruct (Nat.ltb_spec d (length (o_bases o))) as [Hd|Hd]; [|discriminate]. cbv zeta in G.
+    destruct (insert_knots_shape xs o o' d HS Hd E) as [_ Hl].
+    destruct (Nat.eq_dec (b_per1 (nth d (o_bases o) dflt_basis)) 0) as [P0|P0].
+    + destruct (insert_knots_bases xs o o' d HB Hd P0 E) as (_ & P1 & _ & _ & _ & P2 & _).
+      apply (Forall_by_nth _ (o_bases o) _ dflt_basis Hl). intros i Hi. destruct (Nat.eq_dec i d) as [->|Ne]; [apply images_ok_nonper; exact P1|].
+      rewrite P2 by exact Ne. apply Forall_nth_in; assumption.
+    + destruct G as [G|[G1 G2]]; [contradiction|]. destruct (insert_knots_bases_per xs o o' d HB Hd P0 G1 G2 E) as (_ & P1 & _ & _ & P2).
+      apply (Forall_by_nth _ (o_bases o) _ dflt_basis Hl). intros i Hi. destruct (Nat.eq_dec i d) as [->|Ne]; [exact P1|].
+      rewrite P2 by exact Ne. apply Forall_nth_in; assumption.
+  - destruct (Nat.ltb_spec d (length (o_bases o))) as [Hd|Hd]; [|discriminate]. injection E as <-.
+    unfold obj_reverse. cbv zeta. cbn [o_bases]. apply Forall_upd; [exact HG|]. apply images_reverse; apply Forall_nth_in; assumption.
+  - destruct (Nat.ltb_spec d1 (length (o_bases o))) as [H1|H1]; [|discriminate].
+    destruct (Nat.ltb_spec d2 (length (o_bases o))) as [H2|H2]; [|discriminate]. cbn [andb] in E. injection E as <-.
+    unfold obj_swap, o_pardim. destruct (length (o_bases o) =? 1)%nat; [exact HG|]. cbv zeta. cbn [o_bases]. unfold swap_idx.
+    apply Forall_upd; [apply Forall_upd; [exact HG|]|]; apply Forall_nth_in; assumption.
+  - destruct (Nat.ltb_spec d (length (o_bases o))) as [Hd|Hd]; [|discriminate].
+    unfold obj_reparam_dir in E. destruct (basis_reparam (nth d (o_bases o) (mkBasis 0 [] 0)) s e) as [b'|er] eqn:Eb; [|discriminate].
+    injection E as <-. cbn [o_bases]. apply Forall_upd; [exact HG|].
+    apply (images_reparam _ b' s e (Forall_nth_in _ _ d (mkBasis 0 [] 0) HB Hd) (Forall_nth_in _ _ d (mkBasis 0 [] 0) HG Hd) Eb).
+  - unfold obj_translate in E. cbv zeta in E.
+    destruct (o_dim o <? length x)%nat; (destruct (length x <? _)%nat; [discriminate|]); injection E as <-; exact HG.
+  - unfold obj_scale in E. cbv zeta in E. destruct (_ <? _)%nat; [discriminate|]. injection E as <-. exact HG.
+  - injection E as <-. exact HG.
+  - injection E as <-. exact HG.
+  - injection E as <-. unfold obj_force_rational. destruct (o_rat o); exact HG.
+Qed.
+
+Lemma nonper_ghost (o : obj R) : nonper o -> ghost_ok o.
+Proof. intros H. unfold ghost_ok, nonper in *. apply Forall_forall. intros b Hb. rewrite Forall_forall in H. apply images_ok_nonper, H, Hb. Qed.
+
+Theorem step2_preserves_ghost tol (o o' : obj R) (a : @op2 R) : inv o -> ghost_ok o -> guard2 tol o a -> step2 tol o a = Ok o' -> ghost_ok o'.
+Proof.
+  intros HI HG G E. destruct a as [a'|am|am|d ks idx|sels|ch sh nrm iv|nrm iv|cont d|t d|o2|o2 dir]; cbn [guard2] in G; try contradiction.
+  - exact (step_ghost o o' a' HI HG G E).
+  - (* raise: a raised direction is non-periodic *)
+    destruct (raise_order_inv tol o o' am HI G E) as (_ & R2 & _ & _ & R5). destruct G as [_ G].
+    apply (Forall_by_nth _ (o_bases o) _ dflt_basis R2). intros i Hi. rewrite R5.
+    destruct (_ <? _)%nat; [|apply Forall_nth_in; assumption]. destruct (G i Hi) as [->|[Hper _]].
+    + unfold basis_raise_order. cbn [Nat.eqb]. apply Forall_nth_in; assumption.
+    + apply images_ok_nonper. rewrite (proj2 (raise_basis_order tol _ _)). exact Hper.
+  - (* split piece *)
+    destruct G as (p & k & H). cbn [step2] in E. destruct (d <? o_pardim o)%nat; [|discriminate].
+    destruct (obj_split (S (length ks)) tol o d ks) as [ps|er] eqn:ES; [|discriminate].
+    destruct (nth_error ps idx) as [pc|] eqn:En; [|discriminate]. injection E as <-.
+    assert (Hidx : (idx < length ps)%nat) by (apply nth_error_Some; congruence).
+    rewrite (split_length tol o d p k ks H _ _ ES) in Hidx.
+    destruct (split_tiling tol o d p k ks H _ _ ES idx ltac:(lia)) as (_ & T2 & T3 & _ & T5 & _). cbv zeta in T2, T3, T5.
+    rewrite (nth_error_nth ps idx o En) in T2, T3, T5.
+    apply (Forall_by_nth _ (o_bases o) _ dflt_basis T2). intros i Hi. destruct (Nat.eq_dec i d) as [->|Ne]; [apply images_ok_nonper; exact T5|].
+    rewrite T3 by exact Ne. apply Forall_nth_in; assumption.
+  - cbn [step2] in E. destruct (Nat.ltb_spec (o_pardim o) (length sels)) as [L|L]; [discriminate|]. injection E as <-.
+    destruct (section_inv o (pad_sels (o_pardim o) sels) HI (pad_sels_length _ _ L)) as (_ & EB & _). unfold ghost_ok. rewrite EB.
+    unfold free_bases. apply Forall_forall. intros b Hb. apply in_map_iff in Hb. destruct Hb as ([s b'] & <- & Hin).
+    apply filter_In in Hin. destruct Hin as [Hin _]. apply in_combine_r in Hin. unfold ghost_ok in HG. rewrite Forall_forall in HG. apply HG. exact Hin.
+  - unfold ghost_ok. rewrite (proj2 (rotate_inv o o' ch sh nrm iv HI E)). exact HG.
+  - unfold ghost_ok. rewrite (proj2 (mirror_inv o o' nrm iv HI E)). exact HG.
+  - (* make_periodic *)
+    cbn [step2] in E. destruct (Nat.ltb_spec d (o_pardim o)) as [Hd|Hd]; [|discriminate]. unfold o_pardim in Hd.
+    unfold obj_make_periodic, guard_make_periodic in *. cbv zeta in *. fold dflt_basis in E.
+    set (b := nth d (o_bases o) dflt_basis) in *.
+    destruct (Z.ltb_spec cont (-1)) as [C1|C1]; [discriminate|]. destruct (Z.ltb_spec (Z.of_nat (b_order b) - 2) cont) as [C2|C2]; [discriminate|].
+    cbn [orb] in E. destruct (Z.eqb_spec cont (-1)) as [C3|C3]; [discriminate|].
+    destruct (Nat.eqb_spec (b_per1 b) 0) as [Hper|Hper]; [|discriminate]. cbn [negb] in E. injection E as <-.
+    unfold obj_along, ghost_ok. cbn [o_bases]. apply Forall_upd; [exact HG|].
+    apply images_make_periodic; [apply (Forall_nth_in _ _ d dflt_basis (proj2 HI) Hd)|lia|unfold b_nfun in G; lia].
+  - (* append: one non-periodic basis *)
+    cbn [step2] in E. destruct (_ && _); [|discriminate]. unfold obj_append in E. cbv zeta in E.
+    destruct (negb _ || negb _); [discriminate|]. destruct (obj_compatible o o2) as [c1 c2].
+    destruct (obj_raise_order tol c1 _) as [d1|er]; [|discriminate]. destruct (obj_raise_order tol c2 _) as [d2|er]; [|discriminate].
+    injection E as <-. unfold ghost_ok. cbn [o_bases]. constructor; [apply images_ok_nonper; reflexivity|constructor].
+  - cbn [step2] in E. destruct (obj_make_identical tol o o2 dir) as [ab|er] eqn:EI; [|discriminate]. injection E as <-.
+    apply nonper_ghost. exact (proj1 (proj2 (proj2 (make_identical_inv tol o o2 dir ab HI G EI)))).
 Qed.
 
 (* the side conditions along a history: at every state the next operation satisfies its guard *)
@@ -1666,6 +2131,16 @@ Proof.
   - intros [= <-]. split; assumption.
   - destruct (step2 tol o a) as [o1|e] eqn:E; [|discriminate]. destruct G as [G1 G2]. destruct GW as [W1 W2].
     apply (IH o1 o' (step2_preserves_inv tol o o1 a HI G1 E) (step2_preserves_weights tol o o1 a HI HW G1 W1 E) (G2 o1 E) (W2 o1 E)).
+Qed.
+
+(* the three invariants together *)
+Theorem reachable_inv_ghost tol (ops : list (@op2 R)) : forall (o o' : obj R),
+  inv o -> ghost_ok o -> guarded2 tol o ops -> run2 tol o ops = Ok o' -> inv o' /\ ghost_ok o'.
+Proof.
+  induction ops as [|a ops IH]; intros o o' HI HG G; cbn [run2].
+  - intros [= <-]. split; assumption.
+  - destruct (step2 tol o a) as [o1|e] eqn:E; [|discriminate]. destruct G as [G1 G2].
+    apply (IH o1 o' (step2_preserves_inv tol o o1 a HI G1 E) (step2_preserves_ghost tol o o1 a HI HG G1 E) (G2 o1 E)).
 Qed.
 
 (* ------------------------------------------------------------------------------------------------ *)
@@ -1712,7 +2187,7 @@ Proof.
   intros Hc HI HN E. destruct a as [a'|am|am|d ks idx|sels|ch sh nrm iv|nrm iv|cont d|t d|o2|o2 dir]; cbn [covered] in Hc; try contradiction; cbn [guard2].
   - split; [|exact (step_nonper o o' a' HI HN E)]. destruct a'; cbn [guard_old]; try exact I.
     cbn [step2 step] in E. unfold o_pardim in E. destruct (Nat.ltb_spec d (length (o_bases o))) as [Hd|Hd]; [|discriminate].
-    apply (Forall_nth_in _ _ d dflt_basis HN Hd).
+    left. apply (Forall_nth_in _ _ d dflt_basis HN Hd).
   - split; [exact I|]. cbn [step2] in E. destruct (Nat.ltb_spec (o_pardim o) (length sels)) as [L|L]; [discriminate|]. injection E as <-.
     destruct (section_inv o (pad_sels (o_pardim o) sels) HI (pad_sels_length _ _ L)) as (_ & EB & _). unfold nonper. rewrite EB.
     unfold free_bases. apply Forall_forall. intros b Hb. apply in_map_iff in Hb. destruct Hb as ([s b'] & <- & Hin).
@@ -1858,8 +2333,68 @@ Proof.
   change (o_rat o7) with (o_rat o6). rewrite R6, R5. change (o_rat o4) with (o_rat o3). unfold o3, obj_force_rational. destruct (o_rat o2) eqn:Er; [exact Er|reflexivity].
 Qed.
 
+(* a second history on R through periodic objects: make_periodic, knot insertion into the periodic direction, reverse, reparam *)
+Definition wit_hist_per : list (@op2 R) := [OpMakePeriodic 0%Z 0; OpOld (OpInsert 0 [1/2]); OpOld (OpReverse 0); OpOld (OpReparam 0 2 5)].
+
+Theorem witness_R_periodic : guarded2 wit_tol wit_o wit_hist_per /\
+  exists o', run2 wit_tol wit_o wit_hist_per = Ok o' /\ inv o' /\ ghost_ok o' /\ b_per1 (nth 0 (o_bases o') dflt_basis) = 1%nat /\
+             b_start (nth 0 (o_bases o') dflt_basis) = 2 /\ b_end (nth 0 (o_bases o') dflt_basis) = 5 /\ o_shape o' = [5%nat].
+Proof.
+  destruct witness_R as (HI & _).
+  assert (HG0 : ghost_ok wit_o) by (apply nonper_ghost; unfold nonper, wit_o; cbn [o_bases]; repeat constructor).
+  (* step 1: make_periodic *)
+  set (b1 := basis_make_periodic (mkBasis 3 wit_k 0) 0).
+  set (o1 := obj_along wit_o 0 b1 (periodic_merge_matrix 5 0)).
+  assert (E1 : step2 wit_tol wit_o (OpMakePeriodic 0%Z 0) = Ok o1) by reflexivity.
+  assert (Gmp : guard2 wit_tol wit_o (OpMakePeriodic 0%Z 0)) by (unfold guard2, guard_make_periodic, wit_o, wit_k, b_nfun; cbn; lia).
+  assert (I1 : inv o1) by (apply (step2_preserves_inv wit_tol wit_o o1 _ HI Gmp E1)).
+  assert (G1 : ghost_ok o1) by (apply (step2_preserves_ghost wit_tol wit_o o1 _ HI HG0 Gmp E1)).
+  assert (K1 : knots_ok b1) by (apply (Forall_nth_in _ _ 0%nat dflt_basis (proj2 I1)); cbn; lia).
+  assert (Im1 : images_ok b1) by (apply (Forall_nth_in _ _ 0%nat dflt_basis G1); cbn; lia).
+  assert (Ro1 : roomy b1) by (unfold roomy; vm_compute; lia).
+  assert (P1 : b_per1 b1 <> 0%nat) by (cbn; lia).
+  (* step 2: periodic knot insertion *)
+  destruct (basis_insert_knot_per_ok b1 (1/2) K1 P1) as (b2 & C2 & EB).
+  destruct (knots_ok_insert_per b1 b2 (1/2) C2 K1 Im1 P1 Ro1 EB) as (_ & _ & _ & Q4 & Q5 & Q6 & _).
+  set (o2 := mkObj (upd (o_bases o1) 0 b2) (apply_dir (o_ncomp o1) (o_shape o1) 0 C2 (o_cps o1)) (o_dim o1) (o_rat o1)).
+  assert (E2 : step2 wit_tol o1 (OpOld (OpInsert 0 [1/2])) = Ok o2).
+  { cbn [step2 step]. change (0 <? o_pardim o1)%nat with true. cbn [obj_insert_knots]. change (nth 0 (o_bases o1) (mkBasis 0 [] 0)) with b1. rewrite EB. reflexivity. }
+  assert (Gin : guard2 wit_tol o1 (OpOld (OpInsert 0 [1/2]))) by (right; split; assumption).
+  assert (I2 : inv o2) by (apply (step2_preserves_inv wit_tol o1 o2 _ I1 Gin E2)).
+  (* steps 3, 4 *)
+  set (o3 := obj_reverse o2 0).
+  assert (E3 : step2 wit_tol o2 (OpOld (OpReverse 0)) = Ok o3) by reflexivity.
+  assert (I3 : inv o3) by (apply (step2_preserves_inv wit_tol o2 o3 (OpOld (OpReverse 0)) I2 I E3)).
+  assert (N3 : nth 0 (o_bases o3) dflt_basis = basis_reverse b2) by reflexivity.
+  assert (Hl3 : length (o_bases o3) = 1%nat) by reflexivity.
+  assert (K2 : knots_ok b2) by (apply (Forall_nth_in _ _ 0%nat dflt_basis (proj2 I2)); cbn; lia).
+  destruct (knots_ok_reverse b2 K2) as (K3 & _ & _ & R4 & R5).
+  pose proof (knots_ne _ K3) as Hne. pose proof K3 as (_ & _ & _ & Hse3).
+  pose proof (basis_reparam_ok (basis_reverse b2) Hne Hse3 2 5 ltac:(lra)) as Er.
+  set (o4 := mkObj (upd (o_bases o3) 0 (rp_basis (basis_reverse b2) 2 5)) (o_cps o3) (o_dim o3) (o_rat o3)).
+  assert (E4 : step2 wit_tol o3 (OpOld (OpReparam 0 2 5)) = Ok o4).
+  { cbn [step2 step]. unfold o_pardim. rewrite Hl3. cbn [Nat.ltb Nat.leb]. unfold obj_reparam_dir. fold dflt_basis. rewrite N3, Er. reflexivity. }
+  assert (Hc : Forall covered_any [OpOld (OpReverse 0); OpOld (OpReparam 0 2 5)]) by repeat constructor.
+  assert (G : guarded2 wit_tol wit_o wit_hist_per).
+  { change (guard2 wit_tol wit_o (OpMakePeriodic 0%Z 0) /\ forall o1', step2 wit_tol wit_o (OpMakePeriodic 0%Z 0) = Ok o1' ->
+            guard2 wit_tol o1' (OpOld (OpInsert 0 [1/2])) /\ forall o2', step2 wit_tol o1' (OpOld (OpInsert 0 [1/2])) = Ok o2' ->
+            guarded2 wit_tol o2' [OpOld (OpReverse 0); OpOld (OpReparam 0 2 5)]).
+    split; [exact Gmp|]. intros o1' E1'. rewrite E1 in E1'. injection E1' as <-. split; [exact Gin|].
+    intros o2' _. apply covered_any_guarded. exact Hc. }
+  split; [exact G|].
+  assert (ER : run2 wit_tol wit_o wit_hist_per = Ok o4) by (unfold wit_hist_per; cbn [run2]; rewrite E1, E2, E3, E4; reflexivity).
+  exists o4. split; [exact ER|]. destruct (reachable_inv_ghost wit_tol wit_hist_per wit_o o4 HI HG0 G ER) as [I4 G4].
+  split; [exact I4|]. split; [exact G4|].
+  assert (N4 : nth 0 (o_bases o4) dflt_basis = rp_basis (basis_reverse b2) 2 5) by reflexivity.
+  rewrite N4. split; [cbn [rp_basis b_per1]; rewrite R4, Q4; reflexivity|]. split; [apply rp_start; exact Hne|]. split; [apply rp_end; assumption|].
+  change (o_shape o4) with [b_nfun (rp_basis (basis_reverse b2) 2 5)]. f_equal.
+  unfold b_nfun at 1. cbn [rp_basis b_knots b_order b_per1]. rewrite map_length. change (length (b_knots (basis_reverse b2)) - b_order (basis_reverse b2) - b_per1 (basis_reverse b2))%nat with (b_nfun (basis_reverse b2)).
+  rewrite R5, Q6. vm_compute. reflexivity.
+Qed.
+
 (* ------------------------------------------------------------------------------------------------ *)
-(* the executed (Q) instance: a history of nine operations of nine different kinds on a rational surface succeeds, every
+(* the executed (Q) instance: a history of eleven operations (ten different kinds; the last one inserts two knots, one of them
+   outside the base period, into a periodic direction) on a rational surface succeeds, every
    intermediate object passes the executable well-formedness test of Model/WF.v (which includes positive weights) *)
 From Coq Require Import QArith.
 Definition q_run2 := @run2 Q NumQ.
@@ -1871,16 +2406,27 @@ Definition exq_c : obj Q := @mkObj Q [@mkBasis Q 2 [0;0;1;2;2]%Q 0] [[5;5]; [6;5
 Definition exq_tol : Q := (1#1000000)%Q.
 Definition exq_hist : list (@op2 Q) :=
   [OpOld (OpInsert 0 [(1#2)%Q]); OpRaise [1%nat; 0%nat]; OpSplitPick 1 [(1#2)%Q] 1; OpRotate (3#5)%Q (4#5)%Q [0;0;1]%Q 1%Q;
-   OpMirror [1;0;0]%Q 1%Q; OpSection [0%nat]; OpOld (OpReverse 0); OpAppend exq_c; OpMakePeriodic 0%Z 0].
+   OpMirror [1;0;0]%Q 1%Q; OpSection [0%nat]; OpOld (OpReverse 0); OpMakeIdentical exq_c None; OpAppend exq_c; OpMakePeriodic 0%Z 0;
+   OpOld (OpInsert 0 [(1#4)%Q; (7#2)%Q])].
 
 Example ops2_example_Q :
   match q_run2 exq_tol exq_o exq_hist with
-  | Ok o' => @wf_obj_b Q NumQ exq_tol o' = true /\ @o_shape Q o' = [6%nat] /\ o_dim o' = 3%nat /\ o_rat o' = true /\
+  | Ok o' => @wf_obj_b Q NumQ exq_tol o' = true /\ @o_shape Q o' = [10%nat] /\ o_dim o' = 3%nat /\ o_rat o' = true /\
              map (@b_per1 Q) (o_bases o') = [1%nat]
   | Err _ => False
   end /\
-  length (q_trace2 exq_tol exq_o exq_hist) = 10%nat /\
+  length (q_trace2 exq_tol exq_o exq_hist) = 12%nat /\
   forallb (@wf_obj_b Q NumQ exq_tol) (q_trace2 exq_tol exq_o exq_hist) = true.
+Proof. vm_compute. repeat split; reflexivity. Qed.
+
+(* why knot insertion into a PERIODIC direction is guarded out: the clauses of [inv] alone are not inductive there.  The
+   basis below (order 2, periodic 1, two functions) is sorted with start 0 < end 1, but has ghost knots that do not repeat
+   the interior spacing; inserting 0 runs the ghost-knot repair, which collapses the whole knot vector *)
+Example periodic_insert_counterexample :
+  match @basis_insert_knot Q NumQ (@mkBasis Q 2 [0;0;0;1;1;1]%Q 2) 0%Q with
+  | Ok (b', _) => b_knots b' = [0;0;0;0;0;0;0]%Q /\ b_order b' = 2%nat /\ b_per1 b' = 2%nat
+  | Err _ => False
+  end.
 Proof. vm_compute. repeat split; reflexivity. Qed.
 
 Print Assumptions step2_preserves_inv.
@@ -1888,6 +2434,9 @@ Print Assumptions step2_preserves_weights.
 Print Assumptions reachable_inv.
 Print Assumptions trace_inv.
 Print Assumptions reachable_weights.
+Print Assumptions step2_preserves_ghost.
+Print Assumptions reachable_inv_ghost.
+Print Assumptions witness_R_periodic.
 Print Assumptions reachable_inv_any.
 Print Assumptions reachable_inv_covered.
 Print Assumptions flat_index_bijection.
